@@ -106,7 +106,8 @@ func (engineK) Components() map[string]string {
 		"SQLite engine":                                 "real (file database on tmpfs through a fault-injecting database/sql driver)",
 		"router worker Process / TagSource":             "real",
 		"sender worker Process":                         "real (hook H3)",
-		"http / poll transports":                        "stub (simulated plugins deciding hand-off outcomes)",
+		"http transport":                                "real HttpWorker.Process (hook H7) over a simulated network (RoundTripper deciding outcomes); queue and worker loop stubbed",
+		"poll transport":                                "address handling real (PollWorker.Process over an empty registry), delivery stubbed here; the whole plugin runs in engine P",
 		"HTTP / gRPC front ends":                        "not part of this engine",
 		"search request helper (api.SearchPromises...)": "real",
 	}
